@@ -2,7 +2,7 @@
 // unit names: s_<f>            scalar overload, inputs = the arguments
 //             v_<f>_<mask>_<L> vector overload; bit k of mask set <=> argument k is a vec<L>, else a scalar
 //             (arguments laid out consecutively: a vector takes L variables, a scalar one)
-// NPARTS 6
+// NPARTS 7
 #include "common.hpp"
 #include <glm/gtx/component_wise.hpp>
 using namespace symt;
@@ -81,6 +81,39 @@ int main(int argc, char** argv) {
   add_unit(nm("op_preinc", {L}), L, 2 * L, [](auto const* x, auto* o) { using T = TY(o); auto a = ldv<L, T>(x); auto r = ++a; stv(o, r); stv(o + L, a); }); \
   add_unit(nm("op_postdec", {L}), L, 2 * L, [](auto const* x, auto* o) { using T = TY(o); auto a = ldv<L, T>(x); auto r = a--; stv(o, r); stv(o + L, a); });
   UNL(1) UNL(2) UNL(3) UNL(4)
+#endif
+#if IN_PART(6)
+  // integer element types (int32 / uint32): component-wise functions against the scalar overload, operators against the
+  // built-in operator.  REG = add_unit_i32 / add_unit_u32, P = name prefix (i / u)
+#define IS1(REG, P, F) REG("s_" P #F, 1, 1, [](auto const* x, auto* o) { o[0] = glm::F(x[0]); });
+#define IV1L(REG, P, F, L) REG(nm("v_" P #F, {1, L}), L, L, [](auto const* x, auto* o) { using T = TY(o); stv(o, glm::F(ldv<L, T>(x))); });
+#define IF1(REG, P, F) IS1(REG, P, F) IV1L(REG, P, F, 1) IV1L(REG, P, F, 2) IV1L(REG, P, F, 3) IV1L(REG, P, F, 4)
+#define IS2(REG, P, F) REG("s_" P #F, 2, 1, [](auto const* x, auto* o) { o[0] = glm::F(x[0], x[1]); });
+#define IV2L(REG, P, F, M, L) REG(nm("v_" P #F, {M, L}), Arg<L, int, (M & 1) != 0>::n + Arg<L, int, (M & 2) != 0>::n, L, [](auto const* x, auto* o) { using T = TY(o); \
+    using A = Arg<L, T, (M & 1) != 0>; using B = Arg<L, T, (M & 2) != 0>; stv(o, glm::F(A::ld(x), B::ld(x + A::n))); });
+#define IV2(REG, P, F, M) IV2L(REG, P, F, M, 1) IV2L(REG, P, F, M, 2) IV2L(REG, P, F, M, 3) IV2L(REG, P, F, M, 4)
+#define IS3(REG, P, F) REG("s_" P #F, 3, 1, [](auto const* x, auto* o) { o[0] = glm::F(x[0], x[1], x[2]); });
+#define IV3L(REG, P, F, M, L) REG(nm("v_" P #F, {M, L}), Arg<L, int, (M & 1) != 0>::n + Arg<L, int, (M & 2) != 0>::n + Arg<L, int, (M & 4) != 0>::n, L, [](auto const* x, auto* o) { using T = TY(o); \
+    using A = Arg<L, T, (M & 1) != 0>; using B = Arg<L, T, (M & 2) != 0>; using C = Arg<L, T, (M & 4) != 0>; stv(o, glm::F(A::ld(x), B::ld(x + A::n), C::ld(x + A::n + B::n))); });
+#define IV3(REG, P, F, M) IV3L(REG, P, F, M, 1) IV3L(REG, P, F, M, 2) IV3L(REG, P, F, M, 3) IV3L(REG, P, F, M, 4)
+#define IOPL(REG, P, NAME, OP, M, L) REG(nm(P "op_" NAME, {M, L}), Arg<L, int, (M & 1) != 0>::n + Arg<L, int, (M & 2) != 0>::n, L, [](auto const* x, auto* o) { using T = TY(o); \
+    using A = Arg<L, T, (M & 1) != 0>; using B = Arg<L, T, (M & 2) != 0>; stv(o, A::ld(x) OP B::ld(x + A::n)); });
+#define IOPS(REG, P, NAME, OP) IOPL(REG, P, NAME, OP, 3, 1) IOPL(REG, P, NAME, OP, 3, 2) IOPL(REG, P, NAME, OP, 3, 3) IOPL(REG, P, NAME, OP, 3, 4) \
+                      IOPL(REG, P, NAME, OP, 1, 1) IOPL(REG, P, NAME, OP, 1, 2) IOPL(REG, P, NAME, OP, 1, 3) IOPL(REG, P, NAME, OP, 1, 4) \
+                      IOPL(REG, P, NAME, OP, 2, 1) IOPL(REG, P, NAME, OP, 2, 2) IOPL(REG, P, NAME, OP, 2, 3) IOPL(REG, P, NAME, OP, 2, 4)
+#define IUNL(REG, P, L) REG(nm(P "op_neg", {L}), L, L, [](auto const* x, auto* o) { using T = TY(o); stv(o, -ldv<L, T>(x)); }); \
+  REG(nm(P "op_not", {L}), L, L, [](auto const* x, auto* o) { using T = TY(o); stv(o, ~ldv<L, T>(x)); });
+#define INTS(REG, P) IF1(REG, P, abs) IS2(REG, P, min) IV2(REG, P, min, 3) IV2(REG, P, min, 1) IS2(REG, P, max) IV2(REG, P, max, 3) IV2(REG, P, max, 1) \
+  IS3(REG, P, clamp) IV3(REG, P, clamp, 7) IV3(REG, P, clamp, 1) \
+  IOPS(REG, P, "add", +) IOPS(REG, P, "sub", -) IOPS(REG, P, "mul", *) IOPS(REG, P, "and", &) IOPS(REG, P, "or", |) IOPS(REG, P, "xor", ^) \
+  IOPS(REG, P, "shl", <<) IOPS(REG, P, "shr", >>) IUNL(REG, P, 1) IUNL(REG, P, 2) IUNL(REG, P, 3) IUNL(REG, P, 4)
+  INTS(add_unit_i32, "i")
+#define IUINTS(REG, P) IS2(REG, P, min) IV2(REG, P, min, 3) IV2(REG, P, min, 1) IS2(REG, P, max) IV2(REG, P, max, 3) IV2(REG, P, max, 1) \
+  IS3(REG, P, clamp) IV3(REG, P, clamp, 7) IV3(REG, P, clamp, 1) \
+  IOPS(REG, P, "add", +) IOPS(REG, P, "sub", -) IOPS(REG, P, "mul", *) IOPS(REG, P, "and", &) IOPS(REG, P, "or", |) IOPS(REG, P, "xor", ^) \
+  IOPS(REG, P, "shl", <<) IOPS(REG, P, "shr", >>)
+  IUINTS(add_unit_u32, "u")
+  // (uaddCarry / usubBorrow / umulExtended are declared for `uint` only, not for a generic element type: hand model C05)
 #endif
   return unit_main(argc, argv);
 }
